@@ -200,12 +200,12 @@ Fixpoint build_or (l : list term) : term :=
   end.
 
 Definition mk_and (a b : term) : term :=
-  let l := conjuncts a ++ conjuncts b in
+  let l := map mk_nz (conjuncts a ++ conjuncts b) in
   if existsb (fun t => const_is t false) l then TC 0
   else build_and (dedupe (isort (filter not_const l))).
 
 Definition mk_or (a b : term) : term :=
-  let l := disjuncts a ++ disjuncts b in
+  let l := map mk_nz (disjuncts a ++ disjuncts b) in
   if existsb (fun t => const_is t true) l then TC 1
   else build_or (dedupe (isort (filter not_const l))).
 
@@ -231,7 +231,10 @@ Definition mk_cmp (o : cop) (a b : term) : term :=
         let '(l, c) := summands a in
         if (y =? 0) && (c =? 0) && is_gt_or_ne o && forallb is01 l && (2 <=? Z.of_nat (length l))
            && (Z.of_nat (length l) <? 1000)
-        then build_or (dedupe (isort l))
+        then fold_right mk_or (TC 0) l
+        else if (y =? 0) && (1 <=? c) && (c <? 1000000) && is_gt_or_ne o && forallb is01 l
+                && (Z.of_nat (length l) <? 1000)
+        then TC 1
         else TCmp o a b
   | None, None =>
       match o with
@@ -261,18 +264,43 @@ Definition mk_sub (a b : term) : term :=
   | None, None => TA Sub a b
   end.
 
+(* x o k for And / Or / Xor with a constant k *)
+Definition comm_c (o : aop) (a : term) (k : Z) : term :=
+  match o with
+  | And => if k =? 0 then TC 0 else if k =? -1 then a else TA o a (TC k)
+  | _ => if k =? 0 then a else TA o a (TC k)
+  end.
+
 Definition mk_comm (o : aop) (a b : term) : term :=      (* And / Or / Xor *)
   match as_const a, as_const b with
   | Some x, Some y => TC (arith o x y)
-  | Some _, None => TA o b a
-  | None, Some _ => TA o a b
+  | Some x, None => comm_c o b x
+  | None, Some y => comm_c o a y
   | None, None => if tleb a b then TA o a b else TA o b a
+  end.
+
+(* Div Mod Pow Shl Shr with a constant on one side: the identities that hold for the total
+   functions of Int32.arith (division and remainder by zero are 0) *)
+Definition other_r (o : aop) (a : term) (k : Z) : term :=
+  match o with
+  | Div => if k =? 0 then TC 0 else if k =? 1 then a else TA o a (TC k)
+  | Mod => if (k =? 0) || (k =? 1) || (k =? -1) then TC 0 else TA o a (TC k)
+  | Pow => if k =? 0 then TC 1 else if k =? 1 then a else TA o a (TC k)
+  | Shl | Shr => if k =? 0 then a else TA o a (TC k)
+  | _ => TA o a (TC k)
+  end.
+Definition other_l (o : aop) (k : Z) (b : term) : term :=
+  match o with
+  | Div | Mod | Shl | Shr => if k =? 0 then TC 0 else TA o (TC k) b
+  | _ => TA o (TC k) b
   end.
 
 Definition mk_other (o : aop) (a b : term) : term :=
   match as_const a, as_const b with
   | Some x, Some y => TC (arith o x y)
-  | _, _ => TA o a b
+  | None, Some y => other_r o a y
+  | Some x, None => other_l o x b
+  | None, None => TA o a b
   end.
 
 Definition mk_arith (o : aop) (a b : term) : term :=
@@ -504,11 +532,18 @@ Proof.
   apply orb_true_iff in E as [E|E]; [rewrite (Hfg _ E); reflexivity | rewrite (IH E); apply orb_true_r].
 Qed.
 
+Lemma tru_mk_nz t : tru (mk_nz t) = tru t.
+Proof. unfold tru. rewrite mk_nz_sound. apply nz_b2z_negb. Qed.
+Lemma forallb_map_nz l : forallb tru (map mk_nz l) = forallb tru l.
+Proof. induction l; cbn; [reflexivity | rewrite tru_mk_nz, IHl; reflexivity]. Qed.
+Lemma existsb_map_nz l : existsb tru (map mk_nz l) = existsb tru l.
+Proof. induction l; cbn; [reflexivity | rewrite tru_mk_nz, IHl; reflexivity]. Qed.
+
 Lemma mk_and_sound a b : ev (mk_and a b) = b2z (nz (ev a) && nz (ev b)).
 Proof.
   unfold mk_and.
-  assert (T : nz (ev a) && nz (ev b) = forallb tru (conjuncts a ++ conjuncts b)).
-  { rewrite forallb_app, <- !conjuncts_sound. reflexivity. }
+  assert (T : nz (ev a) && nz (ev b) = forallb tru (map mk_nz (conjuncts a ++ conjuncts b))).
+  { rewrite forallb_map_nz, forallb_app, <- !conjuncts_sound. reflexivity. }
   rewrite T. destruct (existsb _ _) eqn:E.
   - rewrite (existsb_true_forallb_false _ tru _ (fun t => const_is_sound t false) E). reflexivity.
   - rewrite build_and_sound, forallb_dedupe, (forallb_perm _ _ _ (isort_perm _)), forallb_filter_consts by exact E.
@@ -518,12 +553,18 @@ Qed.
 Lemma mk_or_sound a b : ev (mk_or a b) = b2z (nz (ev a) || nz (ev b)).
 Proof.
   unfold mk_or.
-  assert (T : nz (ev a) || nz (ev b) = existsb tru (disjuncts a ++ disjuncts b)).
-  { rewrite existsb_app, <- !disjuncts_sound. reflexivity. }
+  assert (T : nz (ev a) || nz (ev b) = existsb tru (map mk_nz (disjuncts a ++ disjuncts b))).
+  { rewrite existsb_map_nz, existsb_app, <- !disjuncts_sound. reflexivity. }
   rewrite T. destruct (existsb (fun t => const_is t true) _) eqn:E.
   - rewrite (existsb_true_existsb_true _ tru _ (fun t => const_is_sound t true) E). reflexivity.
   - rewrite build_or_sound, existsb_dedupe, (existsb_perm _ _ _ (isort_perm _)), existsb_filter_consts by exact E.
     reflexivity.
+Qed.
+
+Lemma or_list_sound l : ev (fold_right mk_or (TC 0) l) = b2z (existsb tru l).
+Proof.
+  induction l as [|t l IH]; [reflexivity|]. cbn [fold_right existsb].
+  rewrite mk_or_sound, IH, nz_b2z_negb. reflexivity.
 Qed.
 
 (* ---- comparisons *)
@@ -571,7 +612,7 @@ Proof.
         subst y c.
         match goal with H : forallb is01 l = true |- _ => rename H into F end.
         match goal with H : (_ <? 1000) = true |- _ => apply Z.ltb_lt in H; rename H into L end.
-        rewrite build_or_sound, existsb_dedupe, (existsb_perm _ _ _ (isort_perm _)), <- sum01_pos by exact F.
+        rewrite or_list_sound, <- sum01_pos by exact F.
         rewrite (summands_sound _ _ _ Es), Z.add_0_r.
         pose proof (sum01_bounds l F) as B.
         rewrite wrap32_small by (unfold in32, two31; lia).
@@ -580,7 +621,21 @@ Proof.
         -- destruct (0 <? sum_eval l) eqn:P.
            ++ apply Z.ltb_lt in P. symmetry. apply negb_true_iff, Z.eqb_neq. lia.
            ++ apply Z.ltb_ge in P. symmetry. apply negb_false_iff, Z.eqb_eq. lia.
-      * cbn [eval]. rewrite (as_const_sound _ _ Eb). reflexivity.
+      * destruct ((y =? 0) && (1 <=? c) && (c <? 1000000) && is_gt_or_ne o && forallb is01 l
+                  && (Z.of_nat (length l) <? 1000)) eqn:G2.
+        -- repeat (apply andb_true_iff in G2 as [G2 ?]).
+           apply Z.eqb_eq in G2. subst y.
+           match goal with H : (1 <=? c) = true |- _ => apply Z.leb_le in H; rename H into C1 end.
+           match goal with H : (c <? 1000000) = true |- _ => apply Z.ltb_lt in H; rename H into C2 end.
+           match goal with H : forallb is01 l = true |- _ => rename H into F end.
+           match goal with H : (_ <? 1000) = true |- _ => apply Z.ltb_lt in H; rename H into L end.
+           rewrite (summands_sound _ _ _ Es).
+           pose proof (sum01_bounds l F) as B.
+           rewrite wrap32_small by (unfold in32, two31; lia).
+           destruct o; try discriminate; cbn [eval cmp b2z].
+           ++ replace (sum_eval l + c >? 0) with true; [reflexivity|]. symmetry. rewrite Z.gtb_ltb. apply Z.ltb_lt. lia.
+           ++ replace (sum_eval l + c =? 0) with false; [reflexivity|]. symmetry. apply Z.eqb_neq. lia.
+        -- cbn [eval]. rewrite (as_const_sound _ _ Eb). reflexivity.
   - destruct o; cbn [eval]; try reflexivity.
     + rewrite <- (mirror_sound CGt). reflexivity.
     + destruct (tleb a b); cbn [eval cmp]; [reflexivity | rewrite Z.eqb_sym; reflexivity].
@@ -633,20 +688,80 @@ Proof.
   destruct o; intros []; cbn; f_equal; [apply Z.land_comm | apply Z.lor_comm | apply Z.lxor_comm].
 Qed.
 
+Lemma as_const_in32 t z : as_const t = Some z -> in32 z.
+Proof. destruct t; cbn; intros E; try discriminate. inversion E. apply wrap32_range. Qed.
+
+Lemma comm_c_sound o a k : in32 k ->
+  match o with And | Or | Xor => True | _ => False end -> ev (comm_c o a k) = arith o (ev a) k.
+Proof.
+  intros Hk Ho. pose proof (eval_in32 env a) as Ha.
+  assert (G : ev (TA o a (TC k)) = arith o (ev a) k).
+  { cbn [eval]. rewrite (wrap32_small k Hk). reflexivity. }
+  destruct o; try contradiction; cbn [comm_c].
+  - destruct (k =? 0) eqn:E0; [apply Z.eqb_eq in E0; subst; cbn; rewrite Z.land_0_r; reflexivity|].
+    destruct (k =? -1) eqn:E1; [|exact G]. apply Z.eqb_eq in E1; subst.
+    cbn [arith]. rewrite Z.land_m1_r. symmetry. apply wrap32_small, Ha.
+  - destruct (k =? 0) eqn:E0; [|exact G]. apply Z.eqb_eq in E0; subst.
+    cbn [arith]. rewrite Z.lor_0_r. symmetry. apply wrap32_small, Ha.
+  - destruct (k =? 0) eqn:E0; [|exact G]. apply Z.eqb_eq in E0; subst.
+    cbn [arith]. rewrite Z.lxor_0_r. symmetry. apply wrap32_small, Ha.
+Qed.
+
 Lemma mk_comm_sound o a b :
   match o with And | Or | Xor => True | _ => False end -> ev (mk_comm o a b) = arith o (ev a) (ev b).
 Proof.
   intros Ho. unfold mk_comm. destruct (as_const a) as [x|] eqn:Ea, (as_const b) as [y|] eqn:Eb.
   - cbn [eval]. rewrite arith_wrap, (as_const_sound _ _ Ea), (as_const_sound _ _ Eb). reflexivity.
-  - cbn [eval]. apply comm_arith, Ho.
-  - reflexivity.
+  - rewrite comm_c_sound by (eauto using as_const_in32). rewrite (as_const_sound _ _ Ea). apply comm_arith, Ho.
+  - rewrite comm_c_sound by (eauto using as_const_in32). rewrite (as_const_sound _ _ Eb). reflexivity.
   - destruct (tleb a b); cbn [eval]; [reflexivity | apply comm_arith, Ho].
+Qed.
+
+Lemma other_r_sound o a k : in32 k -> ev (other_r o a k) = arith o (ev a) k.
+Proof.
+  intros Hk. pose proof (eval_in32 env a) as Ha.
+  assert (G : ev (TA o a (TC k)) = arith o (ev a) k).
+  { cbn [eval]. rewrite (wrap32_small k Hk). reflexivity. }
+  destruct o; try exact G; cbn [other_r].
+  - destruct (k =? 0) eqn:E0; [apply Z.eqb_eq in E0; subst; reflexivity|].
+    destruct (k =? 1) eqn:E1; [|exact G]. apply Z.eqb_eq in E1; subst.
+    cbn. rewrite Z.quot_1_r. symmetry. apply wrap32_small, Ha.
+  - destruct ((k =? 0) || (k =? 1) || (k =? -1)) eqn:E; [|exact G].
+    apply orb_true_iff in E as [E|E]; [apply orb_true_iff in E as [E|E]|]; apply Z.eqb_eq in E; subst.
+    + reflexivity.
+    + cbn. rewrite Z.rem_1_r. reflexivity.
+    + cbn. replace (Z.rem (ev a) (-1)) with 0; [reflexivity|].
+      symmetry. change (-1) with (- (1)). rewrite Z.rem_opp_r by lia. apply Z.rem_1_r.
+  - destruct (k =? 0) eqn:E0; [apply Z.eqb_eq in E0; subst; reflexivity|].
+    destruct (k =? 1) eqn:E1; [|exact G]. apply Z.eqb_eq in E1; subst.
+    cbn [arith]. unfold pow32. rewrite Z.pow_1_r. symmetry. apply wrap32_small, Ha.
+  - destruct (k =? 0) eqn:E0; [|exact G]. apply Z.eqb_eq in E0; subst.
+    cbn [arith]. rewrite Z.shiftl_0_r. symmetry. apply wrap32_small, Ha.
+  - destruct (k =? 0) eqn:E0; [|exact G]. apply Z.eqb_eq in E0; subst.
+    cbn [arith]. rewrite Z.shiftr_0_r. symmetry. apply wrap32_small, Ha.
+Qed.
+
+Lemma other_l_sound o k b : in32 k -> ev (other_l o k b) = arith o k (ev b).
+Proof.
+  intros Hk.
+  assert (G : ev (TA o (TC k) b) = arith o k (ev b)).
+  { cbn [eval]. rewrite (wrap32_small k Hk). reflexivity. }
+  destruct o; try exact G; cbn [other_l]; (destruct (k =? 0) eqn:E0; [|exact G]);
+    apply Z.eqb_eq in E0; subst; cbn [eval arith].
+  - destruct (ev b =? 0) eqn:Eb; [reflexivity|]. rewrite Z.quot_0_l; [reflexivity|].
+    intros Hb. rewrite Hb in Eb. discriminate.
+  - destruct (ev b =? 0) eqn:Eb; [reflexivity|]. rewrite Z.rem_0_l; [reflexivity|].
+    intros Hb. rewrite Hb in Eb. discriminate.
+  - rewrite Z.shiftl_0_l. reflexivity.
+  - rewrite Z.shiftr_0_l. reflexivity.
 Qed.
 
 Lemma mk_other_sound o a b : ev (mk_other o a b) = arith o (ev a) (ev b).
 Proof.
   unfold mk_other. destruct (as_const a) as [x|] eqn:Ea, (as_const b) as [y|] eqn:Eb; try reflexivity.
-  cbn [eval]. rewrite arith_wrap, (as_const_sound _ _ Ea), (as_const_sound _ _ Eb). reflexivity.
+  - cbn [eval]. rewrite arith_wrap, (as_const_sound _ _ Ea), (as_const_sound _ _ Eb). reflexivity.
+  - rewrite other_l_sound by (eauto using as_const_in32). rewrite (as_const_sound _ _ Ea). reflexivity.
+  - rewrite other_r_sound by (eauto using as_const_in32). rewrite (as_const_sound _ _ Eb). reflexivity.
 Qed.
 
 Lemma mk_arith_sound o a b : ev (mk_arith o a b) = arith o (ev a) (ev b).
